@@ -257,3 +257,37 @@ def run(ctx):
             m.rel,
             n.lineno,
         )
+
+    # ---- C06.8 "ran without context" is a fact about the job, not about the shared call node -------
+    # Call nodes are content-addressed: f(1) without context and f(1) under a context that f does not read produce the same node, and the
+    # context-bearing job tags that node.  The context-free arm of the same-execution lookup must therefore not exclude *call nodes* that carry a
+    # context tag (the finished context-free twin would become invisible and an equal context-free call would run again); it excludes *jobs*
+    # tagged with a context, and the scheduler writes that job tag.
+    r8 = ctx.rule("C06.8", "the context-free arm of the same-execution lookup filters on the Job's context tag, which the scheduler records", floor=2)
+    dbm8 = repo.mod("redun/backends/db/__init__.py")
+    cc8 = dbm8.func("RedunBackendDb.check_cache")
+    negs = [n for n in ast.walk(cc8) if isinstance(n, ast.UnaryOp) and isinstance(n.op, ast.Invert) and "exists()" in src(n.operand) and "CONTEXT_KEY" in src(n.operand)]
+    if not negs:
+        raise AnalysisError("check_cache: context-free filter `~exists().where(... CONTEXT_KEY ...)` not found", "RedunBackendDb.check_cache")
+    for n in negs:
+        ents = [src(c.comparators[0]) for c in ast.walk(n) if isinstance(c, ast.Compare) and src(c.left) == "Tag.entity_id"]
+        r8.check(
+            ents == ["Job.id"],
+            f"{dbm8.rel}:RedunBackendDb.check_cache:context-free-filter",
+            f"the context-free arm of the same-execution lookup excludes rows by a context tag on {ents}: a call node is shared by equal calls made with and without context, so once "
+            "f.update_context(..)(1) has finished and tagged the node, the finished f(1) without context is no longer found and a later context-free f(1) in the same execution is executed again",
+            dbm8.rel,
+            n.lineno,
+        )
+    rjt = m.func("Scheduler._record_job_tags")
+    cfg8 = CFG(rjt)
+    jv8 = rjt.args.args[1].arg
+    writes = [a for a in ast.walk(rjt) if isinstance(a, (ast.Assign, ast.AugAssign)) and "CONTEXT_KEY" in src(a.value) and f"{jv8}.context_hash" in src(a.value)]
+    ok = bool(writes) and all((f"{jv8}.context_hash", True) in _facts7(cfg8, cfg8.node_of(a)) for a in writes) and any(call_name(c) == "self.backend.record_tags" and "TagEntity.Job" in src(c) for c in calls_in(rjt))
+    r8.check(
+        ok,
+        f"{m.rel}:Scheduler._record_job_tags:job-context-tag",
+        "the scheduler does not tag a job that ran under a context with (CONTEXT_KEY, job.context_hash): the reader's Job-based context filter has nothing to read",
+        m.rel,
+        rjt.lineno,
+    )
